@@ -9,6 +9,7 @@ import lexcheck
 import pipeline
 import checks
 from checks import describe, lexer_check, sizes
+import gencode
 from lexcheck import Case, run_model, run_impl, lines_of
 
 
@@ -124,7 +125,7 @@ def check_C11(ctx):
     # classes through the real macro and generated lexers
     nd, ni = sizes(ctx, (24, 14), (200, 30))
     lexer_check(ctx, dict(p_ctx=0.0, p_named=0.0, max_rules=2, max_depth=1, p_diff=0.5, p_builtin=0.1, p_any=0.15,
-                          p_eoi=0.0, p_var=0.0, p_template=0.0, kinds=['simple']), nd, ni, ["tokens"])
+                          p_eoi=0.0, p_var=0.0, p_template=0.0, p_alias=0.5, kinds=['simple']), nd, ni, ["tokens"])
 
 
 def load_builtin_tables():
@@ -264,6 +265,24 @@ def check_C13(ctx):
                     exp4 += ([1] if member(c) else [0, 0]) + ([2] if (member(c) and c < cut) else [0, 0])
                 cases.append(Case(len(cases), list(order), [(0, inp4, None)]))
                 expect.append(("pair", nm, inp4, exp4))
+        # the complement and a union with another built-in, each leading to a real state (search tables over ranges
+        # that neither built-in has on its own, e.g. ranges that straddle the end of ASCII); every ASCII character
+        # is probed besides the boundaries
+        ascii_all = [c for c in range(0x80) if c not in (0x33, 0x34)]
+        chq = ascii_all + [c for c in (pts[:300] if ctx.tier == "quick" else pts[::97]) if c not in (0x33, 0x34)]
+        other = 'control' if nm != 'control' else 'alphabetic'
+        mo = lambda c, t=oracle[other]: any(lo <= c <= hi for lo, hi in t)
+        rc = ('rule', {'re': ('cat', ('cat', ('char', 0x33), ('diff', ('any',), ('builtin', nm))), ('opt', ('char', 0x7f))),
+                       'ctx': None, 'kind': 'simple:1'})
+        ru = ('rule', {'re': ('cat', ('cat', ('char', 0x34), ('or', ('builtin', nm), ('builtin', other))), ('opt', ('char', 0x7f))),
+                       'ctx': None, 'kind': 'simple:2'})
+        r0b = ('rule', {'re': ('any',), 'ctx': None, 'kind': 'simple:0'})
+        inp5, exp5 = [], []
+        for c in chq:
+            inp5 += [0x33, c, 0x34, c]
+            exp5 += ([1] if not member(c) else [0, 0]) + ([2] if (member(c) or mo(c)) else [0, 0])
+        cases.append(Case(len(cases), [rc, ru, r0b], [(0, inp5, None)]))
+        expect.append(("pair", nm, inp5, exp5))
     stats = run_impl(cases, os.path.join(BUILD, "work_C13"), batch_size=4, run_timeout_ms=60000)
     shutil.rmtree(os.path.join(BUILD, "work_C13"), ignore_errors=True)
     nprobe = 0
@@ -272,6 +291,15 @@ def check_C13(ctx):
         if c.compile_error is not None:
             ctx.violation("compile-error", dict(describe(c), rustc=c.compile_error[-1500:]))
             continue
+        # the generated membership function is the one CharClass.binary_search models, and every table is well formed
+        if c.impl and c.impl.get("tokens"):
+            try:
+                tr = gencode.Translator(c.impl["tokens"], c.name)
+                hp = [x for x in tr.helpers() if "BINARY_SEARCH" in x]
+            except gencode.Untranslatable as e:
+                hp = [str(e)]
+            if hp:
+                ctx.broken("generated-search-function", hp[0], {"definition": lexdef.rust_lexer(c.name, c.d)})
         I = lines_of(c.impl_runs.get(0, []), "I")
         toks = [int(l.split()[1]) for l in I if l.startswith("T ")]
         if len(toks) != len(exp) or any(not l.startswith("T ") and l != "N" for l in I):
@@ -793,7 +821,7 @@ def inline_lets(d):
 
 def check_lets(ctx):
     nd, ni = sizes(ctx, (16, 10), (150, 25))
-    gen = lexdef.Gen(ctx.seed + 3, p_var=0.6, max_rules=3, max_depth=3, p_named=0.6)
+    gen = lexdef.Gen(ctx.seed + 3, p_var=0.6, max_rules=3, max_depth=3, p_named=0.7, p_shared=0.6, p_ctx=0.2)
     cases = []
     while len(cases) < 2 * nd:
         d = gen.definition()
